@@ -21,6 +21,22 @@ func newProv() *Prov {
 	return &Prov{Leaves: map[string]bool{}, Ops: map[string]bool{}, Vals: map[string][]ssa.Value{}}
 }
 
+// Merge adds the leaves, operations and values of o.
+func (pv *Prov) Merge(o *Prov) {
+	if o == nil {
+		return
+	}
+	for k := range o.Leaves {
+		pv.Leaves[k] = true
+	}
+	for k := range o.Ops {
+		pv.Ops[k] = true
+	}
+	for k, v := range o.Vals {
+		pv.Vals[k] = append(pv.Vals[k], v...)
+	}
+}
+
 // List returns the sorted leaf labels.
 func (pv *Prov) List() []string {
 	var out []string
@@ -232,6 +248,9 @@ var transparentFuncs = map[string]bool{
 	"NewSDKIntExternalToken": true, "NewExternalToken": true, "Sprintf": true, "Sprint": true, "Itoa": true, "Atoi": true, "ToLower": true, "TrimPrefix": true,
 	"Keccak256Hash": true, "Keccak256": true, "Sum256": true, "Join": true, "Compare": true, "Equal": true, "HasPrefix": true,
 	"NewIntWithDecimal": true, "MustNewDecFromStr": true, "NewDecFromStr": true,
+	// string normalisers: the result derives from the argument (rules that care name them as lossy steps)
+	"TrimSpace": true, "ToUpper": true, "TrimLeft": true, "TrimRight": true, "TrimSuffix": true, "Trim": true, "ReplaceAll": true, "Replace": true,
+	"ToTitle": true, "ToValidUTF8": true,
 }
 
 func isTransparentPkg(pkg string) bool {
@@ -294,6 +313,7 @@ func (st *pvState) walk(v ssa.Value, fr *frame) {
 		}
 	case *ssa.BinOp:
 		st.out.Ops["binop:"+x.Op.String()] = true
+		st.out.Vals["binop:"+x.Op.String()] = append(st.out.Vals["binop:"+x.Op.String()], x)
 		st.walk(x.X, fr)
 		st.walk(x.Y, fr)
 	case *ssa.UnOp:
